@@ -120,7 +120,8 @@ type child struct {
 
 func startChild(mode string) (*child, error) {
 	cmd := exec.Command(os.Args[0], "-test.run", "^TestCheck$", "-test.timeout", "0")
-	cmd.Env = append(os.Environ(), "VERIF_C08_CHILD="+mode, "VERIF_OUT=", "GOTRACEBACK=all")
+	// two Ps: the child's watchdog goroutine must not depend on preempting a spinning query
+	cmd.Env = append(os.Environ(), "VERIF_C08_CHILD="+mode, "VERIF_OUT=", "GOMAXPROCS=2")
 	stdin, err := cmd.StdinPipe()
 	if err != nil {
 		return nil, err
@@ -295,8 +296,17 @@ func (m *mapRunner) runCase(c mapCase, g genRes) (*finding, error) {
 	}
 	r, hung, site, err := m.ch.ask(w, c.t, c.limit)
 	if err != nil {
+		// no verdict from this child (it died, or was starved): one retry with a fresh one
 		m.close()
-		return nil, err
+		ch, err2 := startChild(w.mode)
+		if err2 != nil {
+			return nil, err2
+		}
+		m.ch = ch
+		if r, hung, site, err = m.ch.ask(w, c.t, c.limit); err != nil {
+			m.close()
+			return nil, err
+		}
 	}
 	ck.st.queries++
 	nMatch := len(w.names(g.s))
